@@ -46,6 +46,11 @@ structure Globals where
   lower : Str → Str                -- `str.lower`
   /-- `packaging.version.Version(s)` (not translated): the Version object, or `none` for InvalidVersion (Py/PrimC10b.lean) -/
   mkVersion : Str → Option PVal := fun _ => Option.none
+  /-- `htmltools.html_dependency_render_mode` at the time `_render_tag_or_taglist` imports it (harness/pytr_c18.py);
+      the package's initial value is "invisible" -/
+  renderModeC18 : PVal := PVal.str ['i', 'n', 'v', 'i', 's', 'i', 'b', 'l', 'e']
+  /-- `hashlib.sha1(s.encode("utf-8")).hexdigest()` (not translated): the digest text, or `none` = not supplied (Py/PrimC18.lean) -/
+  sha1HexC18 : Str → Option Str := fun _ => Option.none
 
 instance : Inhabited Globals :=
   ⟨{ HTML_ESCAPE_TABLE := .none, HTML_ATTRS_ESCAPE_TABLE := .none, VOID_TAG_NAMES := [],
